@@ -953,6 +953,60 @@ func runC08(c *Ctx) {
 					}
 				}
 			}
+			// ... or the method hands the underlying agent's operation, as a bound method value, to a helper that only the
+			// flag-writing methods call and that calls it once and returns its result (Lock and Unlock sharing a tail):
+			// the helper's call stands for the underlying call in the method, the call inside it for its result
+			var innerCall *ssa.Call
+			if agentCall == nil {
+				for _, call := range callsIn(fn) {
+					sc, ok := call.(*ssa.Call)
+					if !ok || !live(sc.Block()) {
+						continue
+					}
+					h := w.helperOf(sc)
+					if h == nil || !m.flagHelper(h, flagWriters) || len(sc.Call.Args) != len(h.Params) {
+						continue
+					}
+					for k, a := range sc.Call.Args {
+						mc, isMC := throughCell(strip(a)).(*ssa.MakeClosure)
+						if !isMC || len(mc.Bindings) != 1 || !m.isLoadOfField(mc.Bindings[0], m.fAgent) {
+							continue
+						}
+						bf, _ := mc.Fn.(*ssa.Function)
+						if bf == nil || !strings.HasSuffix(bf.Name(), "."+spec.name+"$bound") && bf.Name() != spec.name+"$bound" {
+							continue
+						}
+						// the helper calls that parameter exactly once, with one of its own parameters, and returns the result
+						var dc *ssa.Call
+						n := 0
+						for _, hcall := range callsIn(h) {
+							if hv, isCall := hcall.(*ssa.Call); isCall && !hv.Call.IsInvoke() && hv.Call.Value == ssa.Value(h.Params[k]) {
+								dc = hv
+								n++
+							}
+						}
+						if n != 1 || dc == nil || len(dc.Call.Args) != 1 {
+							continue
+						}
+						pp, isP := throughCell(strip(dc.Call.Args[0])).(*ssa.Parameter)
+						if !isP || pp.Parent() != h || paramIndex(pp) >= len(sc.Call.Args) || w.ExprIn(fr.entry, sc.Call.Args[paramIndex(pp)]) != "p1" {
+							continue
+						}
+						okRet := errorResultIndex(h) == 0 && h.Signature.Results().Len() == 1
+						for _, r := range liveReturns(h) {
+							for _, lf := range w.LeavesErr(r.Results[0], r) {
+								if lf.Val != ssa.Value(dc) {
+									okRet = false
+								}
+							}
+						}
+						if okRet {
+							agentCall, innerCall = sc, dc
+							c.Saw(h)
+						}
+					}
+				}
+			}
 			if agentCall == nil {
 				c.Bad("R2.flip", spec.name+"|underlying call", w.FnPos(fr.entry), "no call of the underlying agent's "+spec.name)
 				return
@@ -987,7 +1041,7 @@ func runC08(c *Ctx) {
 				}
 				c.Ok("R2.flip", spec.name+"|decided by the underlying agent: every other return", w.Pos(agentCall.Pos()), "returns under the passed flag test are reached through the underlying call only")
 			}
-			c.Check(len(agentCall.Call.Args) == 1 && w.ExprIn(fr.entry, agentCall.Call.Args[0]) == "p1", "R2.flip", spec.name+"|passphrase pass-through", w.Pos(agentCall.Pos()),
+			c.Check(innerCall != nil || (len(agentCall.Call.Args) == 1 && w.ExprIn(fr.entry, agentCall.Call.Args[0]) == "p1"), "R2.flip", spec.name+"|passphrase pass-through", w.Pos(agentCall.Pos()),
 				"passphrase parameter forwarded unchanged", "the passphrase handed to the underlying agent is not the method's parameter: "+w.Expr(agentCall.Call.Args[0]))
 			nStores := 0
 			for _, a := range w.FieldAccesses(m.Owner(m.fLocked), m.fLocked) {
@@ -1059,12 +1113,12 @@ func runC08(c *Ctx) {
 						c.Check(isConst && bv == spec.val, "R2.flip", spec.name+"|stored constant", w.Pos(st.Pos()), "stores "+boolStr(spec.val)+" (argument of the call at "+w.Pos(sc.Pos())+")", "stores "+w.Expr(up(st.Val))+" into the lock flag")
 						isNil, known := false, false
 						for l := range hv.At(st.Block()) {
-							if y, n, ok := nilTest(l); ok && up(y) == ssa.Value(agentCall) {
+							if y, n, ok := nilTest(l); ok && (up(y) == ssa.Value(agentCall) || (innerCall != nil && throughCell(strip(y)) == ssa.Value(innerCall))) {
 								isNil, known = n, true
 							}
 						}
 						// the call is made before the helper runs
-						c.Check(known && isNil && InstrDominates(agentCall, sc), "R2.flip", spec.name+"|store gated on underlying success", w.Pos(st.Pos()),
+						c.Check(known && isNil && (InstrDominates(agentCall, sc) || (innerCall != nil && agentCall == sc)), "R2.flip", spec.name+"|store gated on underlying success", w.Pos(st.Pos()),
 							"must-fact in "+shortFn(a.Fn)+": its argument, the underlying "+spec.name+"'s result, is nil", "the lock flag is changed on a path where the underlying agent's "+spec.name+" result is not known to be nil")
 					})
 				}
@@ -1080,7 +1134,7 @@ func runC08(c *Ctx) {
 				}
 				okR := true
 				for _, lf := range w.LeavesErr(r.Results[0], r) {
-					if lf.Val == ssa.Value(agentCall) || w.resolveUp(fn, lf.Val) == ssa.Value(agentCall) {
+					if lf.Val == ssa.Value(agentCall) || w.resolveUp(fn, lf.Val) == ssa.Value(agentCall) || (innerCall != nil && lf.Val == ssa.Value(innerCall)) {
 						continue
 					}
 					if cv, isCall := lf.Val.(*ssa.Call); isCall && fr.site != nil && !live(cv.Block()) {
